@@ -238,6 +238,13 @@ class HybridGibbs:
             if not isinstance(sampler, NUTS): # Again, special case for NUTS.
                 sampler.set_state(sampler_state)
                 sampler.set_history(sampler_history)
+                # cached evaluations carried over belong to the previous conditional: refresh them
+                if hasattr(sampler, 'current_target_logd'):
+                    sampler.current_target_logd = sampler.target.logd(sampler.current_point)
+                if hasattr(sampler, 'current_target_grad'):
+                    sampler.current_target_grad = sampler.target.gradient(sampler.current_point)
+                if hasattr(sampler, 'current_likelihood_logd'):
+                    sampler.current_likelihood_logd = sampler._loglikelihood(sampler.current_point)
 
             # Run pre_warmup and pre_sample methods for sampler
             # TODO. Some samplers (NUTS) seem to require to run _pre_warmup before _pre_sample
